@@ -1,4 +1,4 @@
-CONSTANTS B = 4  Bufs = {3, 99}  Paths = {"A", "B"}  WithTrunc = TRUE  WithCorrupt = TRUE  FixSeek = TRUE  FixTrunc = TRUE
+CONSTANTS B = 4  Bufs = {3, 99}  Paths = {"A", "B"}  WithTrunc = TRUE  WithCorrupt = TRUE  FixSeek = TRUE  FixData = TRUE  FixHdr = TRUE
 CONSTANT Shapes <- ShapesThorough
 SPECIFICATION Spec
 VIEW View
